@@ -26,7 +26,17 @@ ChordOk(r) ==
   /\ r.writeOk
   /\ Mod12(Range(r.ons)) \subseteq scalePcs
   /\ Mod12(Range(r.ons)) = Mod12({Pc(note) + t : t \in tones})
+\* the 14 chords in one piece, twice: chord q (1..28) is degree ((q-1) % 7) + 1, a triad for q in 1..7 and 15..21
+SeqOk(r) ==
+  LET k == ParseKey(r.key).k  scalePcs == {Pc(ScaleNotes(k)[j]) : j \in 1..7} IN
+  /\ r.ok /\ Len(r.runs) = 28
+  /\ \A q \in 1..28 :
+        LET i == ((q - 1) % 7) + 1  depth == IF ((q - 1) \div 7) % 2 = 0 THEN 3 ELSE 4
+            tones == HarmoniseTones(k, i, depth) IN
+        /\ Mod12(Range(r.runs[q])) \subseteq scalePcs
+        /\ Mod12(Range(r.runs[q])) = Mod12({Pc(ScaleNotes(k)[i]) + t : t \in tones})
 RecOk(r) == CASE r.kind = "skipped" -> TRUE
+              [] r.kind = "seq" -> SeqOk(r)
               [] r.kind = "lists" -> r.ntriads = 7 /\ r.nsevenths = 7
               [] r.kind = "chord" -> ChordOk(r)
               [] OTHER -> FALSE          \* "nodesc": a supported key was not described
